@@ -85,7 +85,7 @@ def run(pid, tier):
 def _execute(ctx, exe, chains, what):
     """chains: list of lists of Start sharing one script.  Returns [(first script, events, starts)] of the processes that ended
     normally; crashes / hangs / leaks are reported here (a batch that died is re-run start by start to name the culprit)."""
-    res = drv.run(exe, [ch[0].sess.s for ch in chains], timeout=120)
+    res = drv.run(exe, [ch[0].sess.s for ch in chains], timeout=45)          # a batch takes a few seconds; a start that hangs costs the watchdog time
     items = []; redo = []
     for ch in chains:
         s = ch[0].sess.s; rr = res.get(s.sid)
@@ -191,7 +191,13 @@ def _run14(ctx, pid, thorough, rng, exe, tmp):
 
 def _report_dead(ctx, exe, redo, tmp, pid):
     """processes that crashed / hung / leaked: every start again in a process of its own"""
-    for ch, rr in redo:
+    for n_dead, (ch, rr) in enumerate(redo):
+        if n_dead >= 4:
+            # enough culprits named one by one: the remaining dead batches are reported as they are
+            st = rr.status if rr else "missing"
+            ctx.violation("a sequence of starts in one process ended with %s (classes in the batch: %s)" % (st, sorted(set(o.cls for o in ch))[:8]),
+                          {"kind": "crash", "script": ch[0].sess.s.text(), "classes": [(o.cls, o.where) for o in ch], "stderr": rr.stderr[-3000:] if rr else ""})
+            continue
         singles = []
         for k, stt in enumerate(ch):
             d = os.path.join(tmp, "redo_%s_%d" % (ch[0].sess.s.sid, k)); src = stt.sess.s.lines[stt.sess.start_line].split()[1]
@@ -201,7 +207,7 @@ def _report_dead(ctx, exe, redo, tmp, pid):
                 if os.path.exists(os.path.join(d, fn)): os.remove(os.path.join(d, fn))
                 if os.path.exists(os.path.join(src, fn)): shutil.copy(os.path.join(src, fn), os.path.join(d, fn))
             one.sess.s.add("leakcheck"); singles.append(one)
-        res = drv.run(exe, [o.sess.s for o in singles], timeout=60)
+        res = drv.run(exe, [o.sess.s for o in singles], timeout=20)
         named = False
         for o in singles:
             r1 = res.get(o.sess.s.sid)
